@@ -339,6 +339,24 @@ static void stratum_closure(vf_rng *r) {
     int64_t idx = 0;
     vf_case("closure-centres");
     for (int res = 0; res <= VF_T(5, 6); res++) ref_enum_res(res, 1, closure_centre, NULL);
+    /* complete families eight levels deep through cellToChildren and uncompactCells (5.8 M / 4.8 M cells each): every cell handed
+     * out must be a cell; a slip in the carry from one child to the next shows only after 7^6 and more children */
+    for (int i = 0; i < VF_T(2, 6); i++) {
+        int res = (int)vf_below(r, 8);
+        H3Index h = (i & 1) ? vf_make_cell(res, REF_PENT_BC[vf_below(r, 12)], (int[15]){0}) : vf_rand_cell(r, res);
+        if (!VF_MINE(idx++)) continue;
+        int64_t n = 0;
+        vf_case("deepfamily %016" PRIx64, h);
+        if (cellToChildrenSize(h, res + 8, &n) || n <= 0 || n > 6000000) continue;
+        H3Index *ch = vf_buf_new((size_t)n * 8, 0);
+        if (!cellToChildren(h, res + 8, ch))
+            for (int64_t q = 0; q < n; q++) vf_out_cell("cellToChildren", ch[q], res + 8);
+        memset(ch, 0, (size_t)n * 8);
+        if (!uncompactCells(&h, 1, ch, n, res + 8))
+            for (int64_t q = 0; q < n; q++) vf_out_cell("uncompactCells", ch[q], res + 8);
+        vf_buf_free(ch);
+        vf_add("closure.families_eight_levels_deep", 1);
+    }
     for (int res = 0; res <= 15; res++) {
         H3Index p[12], r0[122];
         if (!getPentagons(res, p))
